@@ -1,6 +1,9 @@
 #!/bin/bash
-# run the thorough tier of every registered check, one after the other (hours); prints one line per check
+# run the thorough tier of every registered check, one after the other (hours); prints one line
+# per check. With `vp run --with-repo` the checks are built against the repository snapshot
+# ($VP_RUN_REPO), so that work going on in /repo meanwhile cannot disturb them.
 cd "$(dirname "$0")/.."
+[ -n "${VP_RUN_REPO:-}" ] && export MVV_REPO="$VP_RUN_REPO"
 ./setup.sh >/dev/null 2>&1
 for id in ${*:-C19 C10 C17 C18 C20 C13 C08 C15 C12 C07 C06 C14 C11 C16 C03 C04 C01 C02 C09 C05}; do
   s=$(date +%s)
